@@ -156,7 +156,10 @@ def run(ctx):
     else:
         evs = layout.emission_events(lib, f, emit_fns)
         inp = [e for e in evs if e.kind() == 'write_all' and e.args and layout.array1(e.args[1]) is not None and layout.is_item_field(layout.array1(e.args[1]), 'inp')]
-        ctx.check(R2, len(inp) == 1 and inp[0].loop and inp[0].loop[0] == 'rev', 'writer:inputs-reversed', 'the writer must store the input bytes in reverse transition order (the reader\'s scan and input(i) rely on it)', fn=f)
+        if not inp:
+            ctx.undecided(R2, 'writer:inputs-reversed', 'the emission of the input bytes is not a write_all(&[t.inp]) in a loop of the any-trans encoder: form not decided here (R01.1 / R09.5 report a missing section)', fn=f)
+        else:
+            ctx.check(R2, len(inp) == 1 and inp[0].loop and inp[0].loop[0] == 'rev', 'writer:inputs-reversed', 'the writer must store the input bytes in reverse transition order (the reader\'s scan and input(i) rely on it)', fn=f)
         idx = [e for e in evs if e.kind() == 'write_all' and not e.loop and any(x[0] == 'citem' and x[1] == layout.THRESH for g, v in e.guards for x in walk(g))]
         if idx:
             ctx.step(layout.index_table_rules, ctx, R2, f, idx[0])
